@@ -737,12 +737,81 @@ def _captures_mut(f):
     return False
 
 
+def _closure_classifies(ex, f):
+    """does the closure body call into_bincode_if_unexpected_eof?  (then it is executed, so that the way a read error takes
+    to the caller can be followed: error values carry ("raw_io", k) / ("classified", src) / ("mapped_error", src) tags)"""
+    try:
+        body, _ = closure_body(ex, f)
+    except Exception:
+        return False
+    return "into_bincode_if_unexpected_eof" in (getattr(body, "raw", "") or "")
+
+
+def h_classify_eof(ex, st, frame, t, nf, args, dty):
+    e = Obj("error")
+    e.tag = ("classified", args[0])
+    st.events.append(("classify", nf, args, None))
+    return [(e, None)]
+
+
+def error_chain(e):
+    """objects an error value was derived from (through with_context / map_err / classification wrappers)"""
+    out, n = [], 0
+    while isinstance(e, Obj) and n < 12:
+        out.append(e)
+        tg = getattr(e, "tag", None)
+        e = tg[1] if isinstance(tg, tuple) and len(tg) > 1 and tg[0] in ("mapped_error", "classified") else None
+        n += 1
+    return out
+
+
+def unclassified_read_error(ex, st, e):
+    """True if error value `e` derives from a tagged raw read error without passing into_bincode_if_unexpected_eof"""
+    seen_cls = False
+    n = 0
+    while n < 12:
+        n += 1
+        if isinstance(e, Ref):
+            e = ex.read_path(st, e.cell, e.proj)
+            continue
+        if not isinstance(e, Obj):
+            return False
+        tg = getattr(e, "tag", None)
+        if not (isinstance(tg, tuple) and len(tg) > 1):
+            return False
+        if tg[0] == "raw_io":
+            return not seen_cls
+        if tg[0] == "classified":
+            seen_cls = True
+        elif tg[0] != "mapped_error":
+            return False
+        e = tg[1]
+    return False
+
+
+def raw_io_error(st):
+    e = Obj("std::io::Error")
+    e.tag = ("raw_io", len(st.events))
+    return e
+
+
+def tag_reads_hook(ex, st, name, fargs, out_ty, dty):
+    """await hook: a file read (File::read_exact_at / read_exact_at_allocate / read_all, FileIndex::read_meta) returns an
+    arbitrary Result whose error is a tagged raw I/O error (see unclassified_read_error)"""
+    if "read_exact_at" in name or name.endswith("read_all") or name.endswith("read_meta"):
+        r = ex.fresh(out_ty, st, "rd")
+        r.fields[("Err", 0)] = raw_io_error(st)
+        st.events.append(("await", name, fargs, r))
+        return [(poll_ready(dty, r), None)]
+    return None
+
+
 def h_result_map_err(ex, st, frame, t, nf, args, dty):
     """Result::map_err(self, f).  A closure that captures nothing mutable only builds the error value and is not
     executed (h_err_map_keep); one that captures a reference or smart pointer is executed on the Err path (its side effects
     count: `&mut` state, atomics and locks behind `&`)."""
     v, f = args[0], args[1] if len(args) > 1 else None
-    if not _captures_mut(f):
+    if not _captures_mut(f) and not _closure_classifies(ex, f):
         return h_err_map_keep(ex, st, frame, t, nf, args, dty)
     good = split_enum(ex, st, v, 0)
     outs = []
@@ -848,7 +917,87 @@ def poll_pending(dty):
     return mk_enum(dty, "Pending", 1)
 
 
+def _peel_pin(ex, st, v):
+    """Pin<&mut X> / &mut Pin<&mut X> / &mut X -> the X object (or None)"""
+    n = 0
+    while n < 8:
+        n += 1
+        if isinstance(v, Ref):
+            v = ex.read_path(st, v.cell, v.proj)
+            continue
+        if isinstance(v, Obj) and getattr(v, "tag", None) and v.tag[0] in ("maybe_done", "poll_fn"):
+            return v
+        if isinstance(v, Obj) and (None, 0) in v.fields and (v.ty.startswith("Pin<") or v.ty.startswith("std::pin::Pin<") or base_type(v.ty).split("::")[-1] == "Pin"):
+            v = v.fields[(None, 0)]
+            continue
+        break
+    return None
+
+
+def h_maybe_done(ex, st, frame, t, nf, args, dty):
+    """futures::future::maybe_done(fut) (expansion of join!): the wrapped future, not yet polled"""
+    o = Obj(dty)
+    o.fields[(None, 0)] = args[0]
+    o.tag = ("maybe_done", None)
+    return [(o, None)]
+
+
+def h_poll_fn(ex, st, frame, t, nf, args, dty):
+    o = Obj(dty)
+    o.tag = ("poll_fn", args[0])
+    return [(o, None)]
+
+
+def h_poll_is_ready(ex, st, frame, t, nf, args, dty):
+    v = deref_val(ex, st, args[0])
+    d = ex.get_discr(st, v).t
+    r = (d == BV64(0)) if nf.endswith("is_ready") else (d != BV64(0))
+    return [(Sym(r, "bool"), None)]
+
+
+def h_pin_as_mut(ex, st, frame, t, nf, args, dty):
+    v = args[0]
+    if isinstance(v, Ref):
+        v = ex.read_path(st, v.cell, v.proj)
+    return [(v, None)]
+
+
+def h_maybe_done_take(ex, st, frame, t, nf, args, dty):
+    md = _peel_pin(ex, st, args[0])
+    if md is None or md.tag[0] != "maybe_done":
+        raise Unsupported("take_output of an unmodelled MaybeDone")
+    out = md.fields.get(("g", "out"))
+    if out is None:
+        return [(none(dty), None)]
+    return [(some(out, dty), None)]
+
+
+def _maybe_done_poll(ex, st, frame, t, nf, args, dty, md):
+    """<MaybeDone<F> as Future>::poll: the inner future is polled (every callee future is Ready at its first poll, as
+    everywhere in this executor); its output is kept for take_output."""
+    if ("g", "out") in md.fields:
+        return [(poll_ready(dty, UNIT), None)]
+    fut = md.fields[(None, 0)]
+    if not isinstance(fut, FutureV) or fut.kind in ("closure_future", "stream_next"):
+        raise Unsupported("join! over %r" % (fut,))
+    body = coroutine_body(ex, md.ty)
+    if body is None or not body.ret_ty:
+        raise Unsupported("join!: output type of %s" % md.ty[:80])
+    alts = h_future_poll(ex, st, frame, t, nf, [fut, args[1]], body.ret_ty)
+    if not (isinstance(alts, list) and len(alts) == 1 and alts[0][1] is None):
+        raise Unsupported("join!: inner future with several outcomes at the poll")
+    pv = alts[0][0]
+    md.fields[("g", "out")] = pv.fields[("Ready", 0)]
+    return [(poll_ready(dty, UNIT), None)]
+
+
 def h_future_poll(ex, st, frame, t, nf, args, dty):
+    special = _peel_pin(ex, st, args[0])
+    if special is not None and special.tag[0] == "maybe_done":
+        return _maybe_done_poll(ex, st, frame, t, nf, args, dty, special)
+    if special is not None and special.tag[0] == "poll_fn":
+        call_value(ex, st, frame, special.tag[1], [args[1]], t.dest, t.targets.get("return"))
+        return "pushed"
     fut, where = find_future(ex, st, args[0])
     out_ty = output_type_of_future(dty)
     if isinstance(fut, FutureV) and fut.kind == "closure_future":
@@ -1616,8 +1765,14 @@ STD_SUMMARIES = [
     (r"^<.* as (\S*::)?Try>::branch$", h_try_branch),
     (r"^<.* as (\S*::)?FromResidual<.*>>::from_residual$", h_from_residual),
     (r"^(std::result::)?Result::map_err$", h_result_map_err),
+    (r"into_bincode_if_unexpected_eof$", h_classify_eof),
     (r"^<(std::result::)?Result as (anyhow::)?Context<.*>>::(with_context|context)$", h_err_map_keep),
     (r"^(std::option::)?Option::ok_or_else$", h_ok_or_else),
+    (r"^(futures::future::|futures_util::future::)?maybe_done$", h_maybe_done),
+    (r"^(futures::future::|futures_util::future::)?poll_fn$", h_poll_fn),
+    (r"^(futures::future::|futures_util::future::)?MaybeDone(::<.*>)?::take_output$", h_maybe_done_take),
+    (r"^(std::pin::)?Pin(::<.*>)?::as_mut$", h_pin_as_mut),
+    (r"^(std::task::)?Poll(::<.*>)?::(is_ready|is_pending)$", h_poll_is_ready),
     (r"^Box::pin$", h_box_pin),
     (r"^Box::new$", h_box_new),
     (r"^<.* as (futures::|std::future::|core::future::)?Future>::poll$", h_future_poll),
